@@ -18,8 +18,10 @@ CHECKS = [
           "yields a valid derivation of exactly that input from the start rule (lr_sound), the parser's panic sites are unreachable "
           "(lr_never_panics), every sentence is accepted with its tree (lr_complete) and no non-sentence is (lr_rejects_nonsentences). "
           "Per generated grammar the implementation's own item sets, edges and table cells are validated, and the interpreter model is "
-          "run against Parser::lr on the same tables. 'All grammars' for table construction is by sampling + per-grammar certificate, "
-          "not a proof of Pager's algorithm.",
+          "run against Parser::lr on the same tables. Construction: mirrors of Itemset::close and Itemset::goto are PROVED to compute the "
+          "LR(1) closure / goto for every grammar, key order and fuel bound (close_mirror_sound/complete/terminates/order_insensitive, "
+          "goto_mirror_spec) and are tied to the code on every state and edge; Pager's merging and propagation remain covered by the "
+          "per-grammar certificate, not by a proof.",
   "design_ref": "DESIGN.md §5 C01, §5A",
   "note": _TB + "validators' inputs are dumps taken through public accessors; Earley/tree-validity oracles (Python) only search for failing inputs.",
   "technique": "Coq proof of a verified validator (LR soundness/completeness from per-grammar certificate) + interpreter/implementation differential"},
@@ -81,7 +83,9 @@ CHECKS = [
  {"id": "C17",
   "text": "Coq theorems: the reference nullable/FIRST/FOLLOW/reachability analyses are exact for ALL grammars (iff with declarative "
           "definitions over sentential forms) and total; verified certificate checkers decide true minimum/maximum/unbounded sentence costs "
-          "(C17_certified_costs_exact); the mirrored min-cost iteration provably diverges on a productive derivation cycle. Tie: the "
+          "(C17_certified_costs_exact); MIRRORS of the implementation's own YaccFirsts::new / YaccFollows::new loops are proved exact and "
+          "terminating for every well-formed grammar (firsts_mirror_exact, follows_mirror_exact, *_terminates; the pre-fix FOLLOW loop "
+          "refuted) and tied bit for bit to the code; the mirrored min-cost iteration provably diverges on a productive derivation cycle. Tie: the "
           "implementation's firsts/follows/has_path/min/max costs/min_sentence(s) are compared bit for bit with the proved-exact references "
           "and certified costs on generated grammars (Earley check of generated sentences).",
   "design_ref": "DESIGN.md §5 C17",
